@@ -253,6 +253,21 @@ func C06() int {
 	rng := rand.New(rand.NewSource(c.Seed*6007 + 6))
 	g.LongMax = 200
 	pool := c06Pool(g, rng, pickN(c, 500, 3000))
+	// families of lines that report the SAME operation shape (one namespace, one queryHash / planCacheKey, one
+	// cursor) with literals of different classes and lists of different lengths: whatever a line yields, it
+	// yields it whichever member of its family was processed before it
+	var families [][]c06Line
+	for fi := 0; fi < 12; fi++ {
+		var fam []c06Line
+		lits := []string{`"plain` + fmt.Sprint(fi) + `"`, `"user` + fmt.Sprint(fi) + `@example.com"`, `{"$oid":"5f1e5e2d2c3b4a0001a2b3c4"}`, `{"$date":"2024-05-06T07:08:09.000Z"}`, `null`, `4711`, `true`, `{"$in":["a","b","c"]}`, `{"$in":["a"]}`, `{"$binary":{"base64":"QUJDRA==","subType":"04"}}`}
+		for li := 0; li < 4; li++ {
+			tag := fmt.Sprintf("vqF%dx%dm", fi, li)
+			raw := fmt.Sprintf(`{"t":{"$date":"2025-02-03T04:05:06.000Z"},"s":"I","c":"COMMAND","id":51803,"ctx":"%s","msg":"Slow query","attr":{"type":"command","ns":"dbone.fam%d","command":{"find":"fam%d","filter":{"k":%s,"n":{"$gt":%d}},"limit":%d,"$db":"dbone"},"planSummary":"IXSCAN { k: 1 }","queryHash":"FA%02dAB12","planCacheKey":"0C%02dDE34","cursorid":%d,"durationMillis":%d}}`,
+				tag, fi, fi, lits[(fi+li*3)%len(lits)], 10+li, 5+li, fi, fi, 7000+fi, li)
+			fam = append(fam, c06Line{raw: []byte(raw), obj: true, tag: tag, cls: "shape-family"})
+		}
+		families = append(families, fam)
+	}
 	var objIdx, nonIdx []int
 	for i, l := range pool {
 		if l.obj {
@@ -334,6 +349,14 @@ func C06() int {
 				S[len(S)/2] = bom()
 			case 2:
 				S = append(S, bom())
+			}
+		}
+		if si%2 == 0 && len(S) > 0 {
+			// the members of one family, in a history-dependent order, scattered over the history
+			fam := families[(si/2)%len(families)]
+			for _, k := range r.Perm(len(fam)) {
+				at := r.Intn(len(S) + 1)
+				S = append(S[:at], append([]c06Line{fam[k]}, S[at:]...)...)
 			}
 		}
 		if si%8 == 5 && len(nonIdx) > 0 {
